@@ -329,6 +329,20 @@ def corr_c18(ctx, chk, broken):
                     break
         glue['distribution'] = dict(sorted(kinds.items()))
         glue['translated_methods_stream'] = 'compared on every operation'
+    # several machines in one process: each console receives exactly what ITS machine prints (deterministic two-machine schedule with
+    # a slow console + 8 free-running machines), run under the race detector when that build exists
+    exe, race = race_bin(chk)
+    rc, po = chk.sh([exe, 'cpmpar'], timeout=900)
+    pl = [l for l in po.splitlines() if l.startswith('cpmpar ')]
+    for l in pl:
+        if ' ok ' not in l:
+            out.append({'stream': 'parallel-cpm', 'id': l.split()[1], 'vector': l[:3000], 'real': l[:1500], 'other': 'each machine\'s console output must reach its own writer, whatever other machines in the process do'})
+    if 'DATA RACE' in po:
+        out.append({'stream': 'race-cpm', 'id': 'cpmpar', 'vector': po[po.index('DATA RACE') - 20:][:3000], 'real': 'race detector report', 'other': None})
+    if len(pl) < 2:
+        out.append({'stream': 'parallel-cpm', 'id': 'cpmpar', 'vector': po[-1500:], 'real': f'exit {rc}', 'other': None})
+    glue['machines_in_parallel'] = pl
+    glue['race_detector'] = race
     cov['evaluations'] = cov.get('evaluations', 0) + len(lines)
     cov.setdefault('correspondence', {})['cpmglue'] = glue
     cov['rule'] = cov.get('rule', '') + ' | cpmglue: one evaluation = one operation (new / Memory.Get / Memory.Set / IO.In / IO.Out / SetStdout / SetWarnLogger / dump of three writers and three loggers) on the real tinycpm types and on the translated methods; addresses biased to the BIOS pages, their edges, the gap between stub and stop code and back to written addresses'
@@ -373,6 +387,9 @@ def corr_cim(ctx, chk, broken):
             body = casp + body[len(casp):]
         nl = rnd.choice([0, 1, 5, 6, 7, 8, 12, rnd.randint(0, 12)])
         nam = bytes(rnd.choice(b'ABCxyz019 _-.') for _ in range(nl))
+        if i % 9 == 4:
+            # names that are blank but not empty, or blank at the edges: they are names, not "no name given"
+            nam = rnd.choice([b' ', b'   ', b'      ', b'         ', b'\t', b' A', b'A ', b'  AB  ', b'\t\t'])
         fname = rnd.choice(['a.cim', 'img%02d.cim' % (i % 100), 'x', 'sixsix', 'seven77', 'LONGFILENAME.cim'])
         cases.append((i, off, body, nam, fname))
     lines, real = [], []
@@ -414,7 +431,7 @@ def corr_cim(ctx, chk, broken):
     shutil.rmtree(tmp, ignore_errors=True)
     cov = {'evaluations': len(lines), 'distinct_nontrivial': len(classes),
            'rule': 'one evaluation = one run of the built cim2bin or cim2cas binary (go build from /repo) on a generated image file; lengths {1,2,3,255..257,4095,4096,0x7fff,0x8000,0xffff,0x10000} and random, '
-                   'offsets {0, largest that fits, one less, 0xA000, random}, names of length 0 (default = file name),1,5,6,7,8,12; one image in eight is itself shaped like an output file (a BIN container with a header consistent, or just not consistent, with the image length; a CAS prefix); whole output compared byte for byte with the model; '
+                   'offsets {0, largest that fits, one less, 0xA000, random}, names of length 0 (default = file name),1,5,6,7,8,12 and blank-but-not-empty names (spaces, tabs); one image in eight is itself shaped like an output file (a BIN container with a header consistent, or just not consistent, with the image length; a CAS prefix); whole output compared byte for byte with the model; '
                    'distinct = distinct (length class, name length class, offset edge) combinations',
            'correspondence': {'cases': len(cases), 'runs': len(lines)}}
     return out, cov
